@@ -318,6 +318,33 @@ def run_junk(tier, acc):
                             elif t != ref_t:
                                 diff = sorted(k for k in set(t) | set(ref_t) if t.get(k) != ref_t.get(k))
                                 acc.fail(case, 'junk line %s changes the trained ruleset in %r' % (jname, diff[:4]), 'junk-ruleset:' + jname.split('_')[0])
+    # counted lists (--prefixcount, the output of `sort | uniq -c`): lines that carry no password - a count alone (what a run of blank lines
+    # collapses to), a count and blanks, text without a count - are skipped like the blank lines they stand for
+    COUNTED_JUNK = [('count_only', '12'), ('count_only_padded', '     12'), ('count_only_one_digit', '7'), ('count_and_blank', '3 '), ('count_only_big', '123456'),
+                    ('no_count', 'password'), ('no_count_two_words', 'pass word'), ('blank', ''), ('blanks', '      ')]
+    for seq in bases:
+        if not all(encodable(p, 'utf-8') for p in seq):
+            continue
+        counted = ['%7d %s' % (1, p_) for p_ in seq]
+        for jname, jl in COUNTED_JUNK:
+            for pos in range(len(seq) + 1):
+                lines = list(counted)
+                lines.insert(pos, jl)
+                data = ('\n'.join(lines) + '\n').encode('utf-8')
+                acc.evals += 1
+                acc.nontrivial += 1
+                case = {'layer': 'junk', 'base': seq, 'encoding': 'utf-8', 'junk': 'counted_' + jname, 'position': pos, 'variant': 'prefixcount', 'file_hex': data.hex()}
+                with open(path, 'wb') as f:
+                    f.write(data)
+                try:
+                    got, npw, nerr = read_all(TFI, path, 'utf-8', True)
+                except Exception as e:
+                    acc.fail(case, 'counted list: line %r at line %d makes the reader raise %r' % (jl, pos, e), 'junk-raise:counted')
+                    continue
+                if got != seq or npw != len(seq):
+                    extra = [g for g in got if g not in seq]
+                    acc.fail(case, 'counted list: line %r (%s) at line %d: reader yields %r (num_passwords %d) instead of %r' % (jl, jname, pos, got[:6], npw, seq),
+                             ('junk-leak:' if extra or len(got) > len(seq) else 'junk-loss:') + 'counted')
     acc.sample({'layer': 'junk', 'kinds': [j[0] for j in JUNK][:12]}, cap=1)
     tree.rmtree(wd)
 
